@@ -251,6 +251,70 @@ theorem c09_pinned_tick_self_deadlock_witness :
     lockRun .lock 0 (step ⟨10, 3, true, none, none⟩ (init ⟨10, 3, true, none, none⟩) (.tick 1)).lock = false ∧
     callPublic pinnedTable .rlock 1 [] = .ret [] := by decide
 
+/-! ## Agreement of the hand-written automaton with the source translated on this run
+
+`Operon/Gen/TelomereTranslated.lean` is regenerated from `operon_ai/state/telomere.py` by
+`harness/vf/extract/py2lean_telomere.py` on every run (fail closed: a construct outside the supported subset yields
+`untranslatable …`, which no proof below survives).  Each theorem: for every configuration, every state and every
+list of callbacks already emitted, the translated Python method computes exactly the state, the callback stream and
+the return value of `step` for that operation.  Hence every theorem above is a theorem about the translated source. -/
+
+theorem c09_translation_agrees_enter_senescence (cfg : Cfg) (s : State) (evs : List Ev) (r : Reason) :
+    Tr.enter_senescence cfg s evs r = ((enterSenescence s r).1, evs ++ (enterSenescence s r).2, .unit) := by
+  obtain ⟨ph, len, errs, ops, ren, rsn, st0, la, now⟩ := s
+  cases ph <;> simp [Tr.enter_senescence, Tr.transition_to, enterSenescence]
+
+theorem c09_translation_agrees_start (cfg : Cfg) (s : State) (evs : List Ev) :
+    Tr.start cfg s evs = stepOut cfg s evs .start := by
+  obtain ⟨ph, len, errs, ops, ren, rsn, st0, la, now⟩ := s
+  cases ph <;> simp [Tr.start, Tr.transition_to, stepOut, step, start, started]
+
+theorem c09_translation_agrees_tick (cfg : Cfg) (s : State) (evs : List Ev) (c : Nat) :
+    Tr.tick cfg s evs c = stepOut cfg s evs (.tick c) := by
+  obtain ⟨ph, len, errs, ops, ren, rsn, st0, la, now⟩ := s
+  cases ph <;>
+    simp [Tr.tick, Tr.start, Tr.check_senescence, Tr.enter_senescence, Tr.transition_to, stepOut, step, tick, started,
+      enterSenescence, depleted] <;> (repeat' split) <;> simp_all <;> omega
+
+theorem c09_translation_agrees_record_error (cfg : Cfg) (s : State) (evs : List Ev) :
+    Tr.record_error cfg s evs = stepOut cfg s evs .err := by
+  obtain ⟨ph, len, errs, ops, ren, rsn, st0, la, now⟩ := s
+  cases ph <;>
+    simp [Tr.record_error, Tr.enter_senescence, Tr.transition_to, stepOut, step, recordError,
+      enterSenescence, errorRateHit, Gen.TelomereConsts.errorRateNum, Gen.TelomereConsts.errorRateDen] <;>
+    (repeat' split) <;> simp_all <;> omega
+
+theorem c09_translation_agrees_heartbeat (cfg : Cfg) (s : State) (evs : List Ev) :
+    Tr.heartbeat cfg s evs = stepOut cfg s evs .hb := by
+  simp [Tr.heartbeat, stepOut, step, heartbeat]
+
+theorem c09_translation_agrees_check_timeouts (cfg : Cfg) (s : State) (evs : List Ev) :
+    Tr.check_timeouts cfg s evs = stepOut cfg s evs .timeouts := by
+  obtain ⟨ph, len, errs, ops, ren, rsn, st0, la, now⟩ := s
+  obtain ⟨mo, et, ar, life, idle⟩ := cfg
+  cases ph <;> cases life <;> cases idle <;> cases st0 <;> cases la <;>
+    simp [Tr.check_timeouts, Tr.enter_senescence, Tr.transition_to, stepOut, step, checkTimeouts,
+      enterSenescence, limitHit] <;> (repeat' split) <;> simp_all <;> omega
+
+theorem c09_translation_agrees_renew (cfg : Cfg) (s : State) (evs : List Ev) (n : Option Nat) (r : Bool) :
+    Tr.renew cfg s evs n r = stepOut cfg s evs (.renew n r) := by
+  obtain ⟨ph, len, errs, ops, ren, rsn, st0, la, now⟩ := s
+  cases ph <;> cases r <;>
+    simp [Tr.renew, Tr.transition_to, stepOut, step, renew, pyOr_eq_renewAmount] <;> (repeat' split) <;> simp_all
+
+theorem c09_translation_agrees_trigger_apoptosis (cfg : Cfg) (s : State) (evs : List Ev) :
+    Tr.trigger_apoptosis cfg s evs () = stepOut cfg s evs .apo := by
+  obtain ⟨ph, len, errs, ops, ren, rsn, st0, la, now⟩ := s
+  cases ph <;> simp [Tr.trigger_apoptosis, Tr.transition_to, stepOut, step, apoptosis]
+
+theorem c09_translation_agrees_terminate (cfg : Cfg) (s : State) (evs : List Ev) :
+    Tr.terminate cfg s evs = stepOut cfg s evs .term := by
+  simp [Tr.terminate, Tr.transition_to, stepOut, step, terminate]
+
+theorem c09_translation_agrees_reset (cfg : Cfg) (s : State) (evs : List Ev) :
+    Tr.reset cfg s evs = stepOut cfg s evs .reset := by
+  simp [Tr.reset, stepOut, step, reset]
+
 /-! ## Non-vacuity: concrete histories meeting the hypotheses -/
 
 private def c1 : Cfg := ⟨3, 2, true, some 900000000, some 15000000⟩
